@@ -29,7 +29,24 @@ func c16Kinds() []posKind {
 		{"*int", reflect.TypeOf((*int)(nil)), []string{"3", "null"}, `"s"`},
 		{"P1", reflect.TypeOf(P1{}), []string{`{"A":1,"B":"b"}`, "null"}, "[1]"},
 		{"any", tAny, []string{`{"k":[1]}`, "null"}, ""},
+		{"json.RawMessage", reflect.TypeOf(json.RawMessage(nil)), []string{`{"k":1}`, "null"}, ""},
+		{"Opt", reflect.TypeOf(Opt{}), []string{"5", "null"}, `"s"`},
 	}
+}
+
+// Opt is an optional integer: a type whose UnmarshalJSON distinguishes null from absent.
+type Opt struct {
+	Set, Null bool
+	V         int
+}
+
+func (o *Opt) UnmarshalJSON(b []byte) error {
+	o.Set = true
+	if string(b) == "null" {
+		o.Null = true
+		return nil
+	}
+	return json.Unmarshal(b, &o.V)
 }
 
 func decodeInto(t reflect.Type, js string) (reflect.Value, bool) {
@@ -43,7 +60,7 @@ func decodeInto(t reflect.Type, js string) (reflect.Value, bool) {
 func c16Positional(maxFull int) *Scenario {
 	return &Scenario{
 		Name:   fmt.Sprintf("Positional: arities 0..6 (all kind tuples up to arity %d), arrays and objects", maxFull),
-		Params: map[string]any{"kinds": []string{"int", "string", "bool", "[]int", "*int", "P1", "any"}},
+		Params: map[string]any{"kinds": []string{"int", "string", "bool", "[]int", "*int", "P1", "any", "json.RawMessage", "Opt (custom Unmarshaler)"}},
 		Seq: func(r *SeqRun) {
 			kinds := c16Kinds()
 			names := []string{"a", "b", "c", "d", "e", "f"}
